@@ -1249,3 +1249,26 @@ func (p *Prog) FieldValues(f *Func, field string) []ast.Expr {
 	})
 	return out
 }
+
+// isCloseOf: c closes a value, either by calling its Close method directly or through one of the
+// logging wrappers (closeAndLogError(x)); returns the value closed.
+func (p *Prog) isCloseOf(c *ast.CallExpr) (ast.Expr, bool) {
+	nm := p.CalleeName(c)
+	if strings.HasSuffix(nm, ".closeAndLogError") && len(c.Args) == 1 {
+		return c.Args[0], true
+	}
+	if sel, ok := unparen(c.Fun).(*ast.SelectorExpr); ok && sel.Sel.Name == "Close" && len(c.Args) == 0 && strings.HasSuffix(nm, ".Close") {
+		return sel.X, true
+	}
+	return nil, false
+}
+
+// calleeHasSuffix: the callee's name ends in one of the "|"-separated alternatives.
+func calleeHasSuffix(name, alts string) bool {
+	for _, a := range strings.Split(alts, "|") {
+		if strings.HasSuffix(name, a) {
+			return true
+		}
+	}
+	return false
+}
